@@ -30,6 +30,13 @@ CHECKS = {
         "replica; found and led to three fix: commits (source-set pointer ordering, AddOrigin(SourceSet) and set_condition not invalidating the solver). Sampled histories, not all.",
         "Trusts that replaying the mutating ops reproduces 'a freshly built copy'; pybind wrappers are part of the system under test.",
         "C08"),
+    "C01": (
+        "differential runtime oracle: CPython execution under sys.setprofile vs pytype's stub, structural membership of every observed value; AST delta-debugging of witnesses; mechanism diagnosis from the live typegraph and CPython object identity",
+        "Generated loop-free programs are executed by CPython and analysed by pytype; every module-level name, instance attribute and module-level call result must be "
+        "admitted by its declared type (don't-know resolves to admit). Violations are minimised and attributed to an observed mechanism; led to fix e0e6e69 "
+        "(simplify_variable) and two listed known findings. Held on the programs explored.",
+        "Trusts CPython as ground truth and the harness membership oracle (vf/oracle/admit.py); only the generated fragment; stdlib imports are Any (empty typeshed).",
+        "C01"),
 }
 
 PENDING_REASON = "check not built yet in this round (planned: see DESIGN.md section for this property)"
